@@ -26,9 +26,13 @@ inner hub's loop, which never blocks (its own sends are non-blocking); hence no 
 sub-subscriptions were left in the table by delete / delete-all) — kept to show that the panic
 outcome is real (`Props/C15.lean`, `old_code_panics_*`).
 
+Subscribers that do not drain their `Send` channel (stalled peers), and what that does to the
+forwarder goroutines, are modelled in the second half of this file (`Full`, `fstep`): the tables above
+are not influenced by it, and the hub loop still never blocks.
+
 NOT modelled: the inner hub's non-blocking send to a forwarder's unbuffered channel drops the
-message when the forwarder is not parked in its select (load dependent); a forwarder blocked on a
-subscriber whose `Send` buffer is full; mutation of a client's `Topic`/`Name` after registration.
+message when the forwarder is momentarily busy although its subscriber drains (load dependent);
+mutation of a client's `Topic`/`Name` after registration.
 -/
 
 namespace Agg
@@ -250,5 +254,213 @@ def NoReRegister (ops : List Op) : Prop := fresh [] ops = true
 
 instance (ops : List Op) : Decidable (NoReRegister ops) := by
   unfold NoReRegister; infer_instance
+
+/-! ## Stalled subscribers (peers that do not drain their `Send` channel)
+
+What the code of today does, line by line (`RelayTo`, `hub.Run`):
+
+* a subscriber's `Send` channel has a buffer; while the subscriber drains it nothing below applies.
+  `stall u k` : from now on `u` does not read, and its buffer has `k` free slots left.
+* plain subscriber: the inner hub's send is non-blocking (`select { case client.Send <- m: default: }`),
+  so a message goes into a free slot or is DROPPED.
+* stream subscriber: the inner hub's non-blocking send goes to the forwarder's private unbuffered
+  channel; it succeeds iff the forwarder is parked in its `select`. The forwarder then executes the
+  BLOCKING `c.Send <- msg`: a free slot takes the message, otherwise the forwarder goroutine stays
+  blocked there holding the message (`Hold.table`, or `Hold.orphan` for a leaked forwarder). While it
+  is blocked it is not in its `select`: further messages on its feed are dropped for this
+  sub-subscription by the inner hub, and it cannot see `Stopped`.
+* tear-down (`h.Hub.Unregister <- subClient.Client; close(subClient.Stopped)`) of a blocked forwarder:
+  neither statement waits for the forwarder, so the hub loop goes on; the forwarder is no longer
+  registered anywhere but still blocked with its message (`Hold.zombie`, a leaked goroutine).
+* `unstall u` : the subscriber drains again: it gets the buffered messages and the message of every
+  forwarder blocked on it (also of zombies: messages "in flight" arrive after the subscriber left or
+  its rule changed); forwarders go back to their `select` (zombies see `Stopped` and end).
+
+No step of `RunOptionalStats` waits for a forwarder or a subscriber, so no `stuck` outcome exists
+here either: `fstep` is `step true` on the tables (`fstep_core`, Props/C15.lean).
+
+Scheduler race kept out: a stalled subscriber with free slots that has BOTH table forwarders and
+leaked forwarders (usage discipline broken) on the feed of one broadcast — which of them get the free
+slots is a race; the model serves plain, then table, then leaked. -/
+
+/-- a broadcast message: its topic (= the feed it was sent on) and the serial number of the broadcast -/
+structure Msg where
+  topic : String
+  seq : Nat
+deriving DecidableEq, Repr
+
+/-- where an undelivered message for a stalled subscriber sits -/
+inductive Hold where
+  | buffered   -- in the subscriber's `Send` buffer
+  | table      -- forwarder of a sub-subscription in `SubClients`, blocked in `c.Send <- msg`
+  | orphan     -- leaked forwarder, blocked in `c.Send <- msg`
+  | zombie     -- stopped and unregistered forwarder, still blocked in `c.Send <- msg`
+deriving DecidableEq, Repr
+
+structure Item where
+  to : Sub
+  hold : Hold
+  msg : Msg
+deriving DecidableEq, Repr
+
+/-- "`to` gets `n` copies of `msg`" (rows are a set: the same row may be listed more than once) -/
+structure Row where
+  to : Sub
+  msg : Msg
+  n : Nat
+deriving DecidableEq, Repr
+
+structure Full where
+  core : State := {}
+  /-- number of broadcasts so far -/
+  seq : Nat := 0
+  /-- the stalled subscribers with the free slots left in their `Send` buffer -/
+  room : List (Sub × Nat) := []
+  /-- undelivered messages: buffered at / blocked on a stalled subscriber -/
+  items : List Item := []
+deriving Repr, DecidableEq
+
+inductive FOp where
+  | core (op : Op)
+  | stall (u : Sub) (k : Nat)
+  | unstall (u : Sub)
+deriving Repr, DecidableEq
+
+def roomOf : List (Sub × Nat) → Sub → Option Nat
+  | [], _ => none
+  | (a, r) :: m, u => if a = u then some r else roomOf m u
+
+/-- forwarders of kind `h` blocked on `u` that belong to feed `topic` -/
+def heldCount (items : List Item) (u : Sub) (h : Hold) (topic : String) : Nat :=
+  items.countP (fun i => i.to = u ∧ i.hold = h ∧ i.msg.topic = topic)
+
+/-- table forwarders of `u` for `topic` that are parked in their `select` -/
+def freeTable (f : Full) (u : Sub) (topic sender : String) : Nat :=
+  fwdTable f.core u topic sender - heldCount f.items u .table topic
+
+/-- leaked forwarders of `u` for `topic` that are parked in their `select` -/
+def freeOrphan (f : Full) (u : Sub) (topic sender : String) : Nat :=
+  fwdOrphan f.core u topic sender - heldCount f.items u .orphan topic
+
+/-- copies of a broadcast that are on their way to `u`'s `Send` channel -/
+def incoming (f : Full) (u : Sub) (topic sender : String) : Nat :=
+  plainRecv f.core u topic sender + freeTable f u topic sender + freeOrphan f u topic sender
+
+/-- `n` copies of `m` arrive at stalled `u` with `r` free slots: `min r n` are buffered; the others
+    stay with their blocked forwarder (`some h`) or are dropped (`none`: the inner hub's own
+    non-blocking send to a plain subscriber) -/
+def takeIn (u : Sub) (m : Msg) (r n : Nat) (h : Option Hold) : Nat × List Item :=
+  (r - min r n,
+   List.replicate (min r n) ⟨u, .buffered, m⟩ ++
+     match h with
+     | some k => List.replicate (n - min r n) ⟨u, k, m⟩
+     | none => [])
+
+/-- one broadcast seen from stalled `u` with `r` free slots: (free slots left, new undelivered messages) -/
+def bcStalled (f : Full) (u : Sub) (r : Nat) (topic sender : String) : Nat × List Item :=
+  let m : Msg := ⟨topic, f.seq⟩
+  let a := takeIn u m r (plainRecv f.core u topic sender) none
+  let b := takeIn u m a.1 (freeTable f u topic sender) (some .table)
+  let c := takeIn u m b.1 (freeOrphan f u topic sender) (some .orphan)
+  (c.1, a.2 ++ b.2 ++ c.2)
+
+/-- `close(Stopped)` + unregister for every table forwarder of the subscribers in `us` -/
+def zombify (us : List Sub) (items : List Item) : List Item :=
+  items.map (fun i => if i.hold = .table ∧ i.to ∈ us then { i with hold := .zombie } else i)
+
+/-- the same for the whole table (delete-all) -/
+def zombifyAll (items : List Item) : List Item :=
+  items.map (fun i => if i.hold = .table then { i with hold := .zombie } else i)
+
+/-- `SubClients[u] = make(..)` over a live entry: its forwarders are leaked -/
+def orphanize (u : Sub) (items : List Item) : List Item :=
+  items.map (fun i => if i.hold = .table ∧ i.to = u then { i with hold := .orphan } else i)
+
+/-- what a table op (on state `s`, before the op) does to the blocked forwarders -/
+def retag (s : State) (items : List Item) : Op → List Item
+  | .register u =>
+    if isStream u.topic then
+      match KV.lookup s.rules u.topic with
+      | some _ => orphanize u items
+      | none => items
+    else items
+  | .unregister u => if isStream u.topic then zombify [u] items else items
+  | .add stream _ =>
+    if stream = "deleteAll" then items
+    else if KV.has s.rules stream then zombify (members s stream) items else items
+  | .delete stream =>
+    if stream = "deleteAll" then zombifyAll items
+    else if KV.has s.rules stream then zombify (members s stream) items else items
+  | .broadcast _ _ => items
+
+/-- rows delivered at once by a broadcast: everybody who could receive and drains promptly -/
+def bcRows (f : Full) (topic sender : String) : List Row :=
+  ((candidates f.core).filter (fun u => (roomOf f.room u).isNone)).map
+    (fun u => ⟨u, ⟨topic, f.seq⟩, incoming f u topic sender⟩)
+
+def bcStep (f : Full) (topic sender : String) : Full :=
+  { f with seq := f.seq + 1,
+           room := f.room.map (fun p => (p.1, (bcStalled f p.1 p.2 topic sender).1)),
+           items := f.items ++ f.room.flatMap (fun p => (bcStalled f p.1 p.2 topic sender).2) }
+
+/-- rows delivered when `u` drains again -/
+def drainRows (items : List Item) (u : Sub) : List Row :=
+  (items.filter (·.to = u)).map (fun i => ⟨u, i.msg, items.countP (fun j => j.to = u ∧ j.msg = i.msg)⟩)
+
+def Op.bcOf : Op → Option (String × String)
+  | .broadcast topic sender => some (topic, sender)
+  | _ => none
+
+/-- a table op that did not panic (`c` = the tables after it): blocked forwarders are re-tagged, a
+    broadcast is distributed -/
+def tableStep (f : Full) (c : State) (op : Op) : Full × List Row :=
+  let g : Full := { f with core := c, items := retag f.core f.items op }
+  match op.bcOf with
+  | some (topic, sender) => (bcStep g topic sender, bcRows g topic sender)
+  | none => (g, [])
+
+def stallOp (f : Full) (u : Sub) (k : Nat) : Full :=
+  match roomOf f.room u with
+  | some _ => f
+  | none => { f with room := (u, k) :: f.room }
+
+def unstallOp (f : Full) (u : Sub) : Full :=
+  { f with room := f.room.filter (·.1 ≠ u), items := f.items.filter (·.to ≠ u) }
+
+/-- one op of the full model: the new state and what is delivered (to subscribers that drain) -/
+def fstep (f : Full) : FOp → Outcome (Full × List Row)
+  | .core op =>
+    match step true f.core op with
+    | .panic => .panic
+    | .ok c => .ok (tableStep f c op)
+  | .stall u k => .ok (stallOp f u k, [])
+  | .unstall u => .ok (unstallOp f u, drainRows f.items u)
+
+/-- the state after one op (what is delivered is `fstep`'s second component) -/
+def fstepS (f : Full) (op : FOp) : Outcome Full :=
+  match fstep f op with
+  | .panic => .panic
+  | .ok p => .ok p.1
+
+/-- run a history from a state; after a panic nothing happens any more -/
+def frunFrom (f : Full) (ops : List FOp) : Outcome Full :=
+  ops.foldl (fun o op => o.bind (fun f => fstepS f op)) (.ok f)
+
+/-- the code of today, from `agg.New()`, nobody stalled -/
+def frun (ops : List FOp) : Outcome Full := frunFrom {} ops
+
+/-- the table ops of a history -/
+def coreOps : List FOp → List Op
+  | [] => []
+  | .core op :: r => op :: coreOps r
+  | _ :: r => coreOps r
+
+/-- does `u` currently not drain (its last stall/unstall was a stall) -/
+def stallStep (u : Sub) (cur : Bool) : FOp → Bool
+  | .stall v _ => if v = u then true else cur
+  | .unstall v => if v = u then false else cur
+  | _ => cur
+
+def stalledNow (ops : List FOp) (u : Sub) : Bool := ops.foldl (stallStep u) false
 
 end Agg
